@@ -1,0 +1,9 @@
+//go:build verif
+
+// Contracts for the deductive verifier in /verif (comment-only; compiled only with -tags verif).
+package account
+
+// The account cache hands out one accessor per address (loading it on first use): assumed.
+//@ func (*Manager).GetAccount   pure trusted
+//@   opt heap-independent
+//@   ensures result != nil
